@@ -24,7 +24,7 @@ SM = {"engine": "small", "needs": ["hz", "enum", "small"], "level": "exploration
 
 RS = {"engine": "rapidspace", "needs": ["hz", "enum", "rapidspace"], "level": "model_checking", "test": True,
       "gen": {"quick": ["mx"], "thorough": ["mx"]}, "args": ["-test.run", "TestC18", "-test.timeout", "0"],
-      "budget": {"quick": "240s", "thorough": "1800s"}}
+      "budget": {"quick": "360s", "thorough": "1800s"}}
 
 PROPS = {
     "C11": {"engine": "sched", "needs": ["hz", "enum", "zzyield", "sched"], "level": "model_checking", "race_twin": True, "instrument_yield": True, "mapctl": True,
